@@ -149,6 +149,34 @@ Theorem C10_barrel_get_neg : forall (A : Type) (ls : barrel (A := A)) (k : nat),
 Proof. exact @bl_get_neg_flat. Qed.
 Print Assumptions C10_barrel_get_neg.
 
+(* insert(-k, x): before the k-th item from the end, clamped to the front (as list.insert) *)
+Theorem C10_barrel_insert_neg : forall (A : Type) (limit : nat -> nat) (ls : barrel (A := A)) (k : nat) (x : A),
+  ls <> [] -> 0 < k ->
+  exists ls', bl_insert limit ls (- Z.of_nat k)%Z x = Ok ls' /\
+              concat ls' = list_insert (length (concat ls) - k) x (concat ls) /\ ls' <> [].
+Proof. exact @bl_insert_neg_flat. Qed.
+Print Assumptions C10_barrel_insert_neg.
+
+(* pop() takes the last item whatever the sub-list structure (empty trailing sub-lists included) *)
+Theorem C10_barrel_pop_last : forall (A : Type) (limit : nat -> nat) (ls : barrel (A := A)) l1 v,
+  ls <> [] -> concat ls = l1 ++ [v] ->
+  exists ls', bl_pop limit ls None = Ok (v, ls') /\ concat ls' = l1 /\ ls' <> [].
+Proof. exact @bl_pop_none_flat. Qed.
+Print Assumptions C10_barrel_pop_last.
+
+Theorem C10_barrel_pop_last_empty : forall (A : Type) (limit : nat -> nat) (ls : barrel (A := A)),
+  ls <> [] -> concat ls = [] -> bl_pop limit ls None = Raise IndexError.
+Proof. exact @bl_pop_none_empty. Qed.
+Print Assumptions C10_barrel_pop_last_empty.
+
+(* pop(-k), k >= 2, is pop(len - k), IndexError further back than the first item *)
+Theorem C10_barrel_pop_neg : forall (A : Type) (limit : nat -> nat) (ls : barrel (A := A)) (k : nat),
+  ls <> [] -> 2 <= k ->
+  bl_pop limit ls (Some (- Z.of_nat k)%Z) =
+  if k <=? bl_len ls then bl_pop limit ls (Some (Z.of_nat (bl_len ls - k))) else Raise IndexError.
+Proof. exact @bl_pop_neg_eq. Qed.
+Print Assumptions C10_barrel_pop_neg.
+
 Theorem C10_barrel_len : forall (A : Type) (ls : barrel (A := A)), bl_len ls = length (concat ls).
 Proof. exact @bl_len_concat. Qed.
 Print Assumptions C10_barrel_len.
@@ -183,9 +211,11 @@ Print Assumptions C10_barrel_refines_list.
 Example C10_barrel_example :
   let ls : barrel (A := nat) := [[]; [10; 11]; []; [12]; [13; 14; 15]] in
   ls <> [] /\
-  bl_run (fun _ => 2) ls [BInsert 7 99; BInsert 0 98; BPop 3; BGet 6; BGet 7; BPop 0; BGetNeg 1; BGetNeg 6; BGetNeg 7; BLen; BList]
+  bl_run (fun _ => 2) ls [BInsert 7 99; BInsert 0 98; BPop 3; BGet 6; BGet 7; BPop 0; BGetNeg 1; BGetNeg 6; BGetNeg 7; BLen; BList;
+                      BPopNeg 1; BPopLast; BPopLast; BPopLast; BInsertNeg 9 7; BInsertNeg 1 8; BPopNeg 3; BPopNeg 9; BList]
   = [BNone; BNone; BVal 12; BVal 99; BErr IndexError; BVal 98; BVal 99; BVal 10; BErr IndexError; BLenIs 6;
-     BItems [10; 11; 13; 14; 15; 99]].
+     BItems [10; 11; 13; 14; 15; 99];
+     BVal 99; BVal 15; BVal 14; BVal 13; BNone; BNone; BVal 10; BErr IndexError; BItems [7; 8; 11]].
 Proof. split; [discriminate | vm_compute; reflexivity]. Qed.
 
 (* ---- drained big histories: the checker used for queues of tens of thousands ---- *)
